@@ -13,6 +13,8 @@ pub mod c09;
 pub mod c11;
 pub mod c12;
 pub mod c13;
+pub mod c14;
+pub mod c15;
 pub mod c16;
 pub mod offtrait;
 
@@ -30,6 +32,8 @@ pub fn dispatch(ctx: &mut Ctx) -> bool {
         "C11" => c11::run(ctx),
         "C12" => c12::run(ctx),
         "C13" => c13::run(ctx),
+        "C14" => c14::run(ctx),
+        "C15" => c15::run(ctx),
         "C16" => c16::run(ctx),
         _ => return false,
     }
